@@ -143,6 +143,8 @@ def run(ctx: Ctx, rep: Report) -> None:
     rep.rule("C17-R1", "Counter32 / Counter64 constructors: negative -> 0, otherwise v mod 2^bits (boundary evaluation of the constructor CFG)", floor=15)
     rep.rule("C17-R2", "TimeTicks <-> timedelta at 100 ticks per second with no truncation of an inexact float", floor=3)
     rep.rule("C17-R3", "IpAddress: 4 octets, same byte order in both directions", floor=2)
+    rep.rule("C17-R6", "every application type value up to the top of its range can be carried in a PDU (the PDU encoder takes Counter64 up to 2^64-1 etc.; shared with C05-R1)", floor=2)
+    rep.rule("C17-R5", "the pythonic view goes through pythonize(): PyVarBind.from_raw and the wrapper never hand out the bare tick count (shared with C15-R1)", floor=5)
     rep.rule("C17-R4", "application types: RFC 2578 tags, unsigned decode on every decode hook", floor=5)
     rep.assumptions += [
         "x690.types.Integer encodes/decodes arbitrary Python integers (its codec over full ranges is not analysed here)",
@@ -209,6 +211,44 @@ def run(ctx: Ctx, rep: Report) -> None:
                 f"the base constructor receives {got!r} ({len(calls)} call(s))",
                 key=f"{init.key}|wrap-clamp",
             )
+    # every value inside the type's range is stored as given (Gauge32 / TimeTicks have no wrap: a constructor that
+    # "normalises" must leave the whole range alone)
+    from ..engine.minieval import Instance as _Inst, MiniEval as _ME, Raised as _Raised, Unevaluable as _Unev
+
+    for tag, (name, kind, bits) in sorted(rfc.APPLICATION_TYPES.items()):
+        if kind != "unsigned":
+            continue
+        cls = app_class(ctx, tag)
+        if cls is None:
+            continue
+        cinit = ctx.r.method(cls, "__init__")
+        site = f"{cls.module.path}:{cls.node.lineno} ({cls.name})"
+        if cinit is None or cinit.module.external:
+            rep.ok("C17-R1", site, f"{name}: values are stored as given (x690's Integer constructor)", "no constructor in the repository")
+            continue
+        top = 2**bits - 1
+        inrange = sorted({0, 1, 2, 127, 128, 255, 256, 2 ** (bits - 1) - 1, 2 ** (bits - 1), 2 ** (bits - 1) + 1, top - 1, top, top // 3, 2 * (top // 3)})
+        bad = []
+        undecided = None
+        for v in inrange:
+            inst = _Inst(cls, [], {})
+            try:
+                _ME(ctx).call_function(cinit, [inst, v])
+            except _Unev as exc:
+                undecided = str(exc)
+                break
+            except _Raised as exc:
+                bad.append(f"{v}: raises {exc.value!r}")
+                continue
+            calls = [c for c in inst.attrs.get("__super_calls__", []) if c[0] == "__init__"]
+            got = (calls[-1][1][0] if calls[-1][1] else calls[-1][2].get("value")) if calls else None
+            if got != v:
+                bad.append(f"{v if v < 10**12 else hex(v)} -> {got if not isinstance(got, int) or got < 10**12 else hex(got)}")
+        if undecided is not None:
+            rep.undecided("C17-R1", cinit.site(), f"{name}: every value of 0..2^{bits}-1 is stored unchanged", f"not evaluable: {undecided}")
+        else:
+            rep.check(not bad, "C17-R1", cinit.site(), f"{name}: every value of 0..2^{bits}-1 is stored unchanged ({len(inrange)} values at and around the byte and range boundaries evaluated)", "; ".join(bad[:4]), key=f"{cinit.key}|in-range-identity")
+
     # ------------------------------------------------------------ R2
     tt = app_class(ctx, 3)
     if tt is None:
@@ -358,3 +398,5 @@ def run(ctx: Ctx, rep: Report) -> None:
             rep.check(not foreign, "C17-R4", site, f"{name}: the decode hooks overridden in the repository read the octets with the class's own signedness", "; ".join(foreign), key=f"{cls.key}|foreign-decode")
         else:
             rep.ok("C17-R4", site, f"{name} (tag {tag}) is registered", "")
+    rep.adopt_rules(ctx.sub_run("c15", rep), "C17-R5", ["C15-R1"])
+    rep.adopt_rules(ctx.sub_run("c05", rep), "C17-R6", ["C05-R1"])
